@@ -219,14 +219,9 @@ func (s *Session) runFunc(key string, mode string) ([]*Obligation, []*Unit) {
 		in       *Inst
 		poolCase string
 	}
-	var jobs []job
-	for _, in := range s.instsFor(fi, ct) {
-		jobs = append(jobs, job{in, ""})
-	}
-	for k := 0; k < len(jobs); k++ {
-		in := jobs[k].in
-		u := newUnit(s.prog, s.cf, fi, ct, in, mode)
-		u.poolCase = jobs[k].poolCase
+	runOne := func(j job) (*Unit, bool) {
+		u := newUnit(s.prog, s.cf, fi, ct, j.in, mode)
+		u.poolCase = j.poolCase
 		if u.poolCase == "" {
 			u.poolCase = "hit"
 		}
@@ -242,19 +237,46 @@ func (s *Session) runFunc(key string, mode string) ([]*Obligation, []*Unit) {
 			u.verifyFunc()
 		}()
 		u.finish()
+		again := false
 		if u.sawPoolGet {
 			for _, o := range u.obls {
 				i := strings.Index(o.Name, "/")
 				o.Name = o.Name[:i] + "/pool-" + u.poolCase + ":" + o.Name[i+1:]
 			}
-			if jobs[k].poolCase == "" {
-				jobs = append(jobs, job{in, "miss"})
-			}
+			again = j.poolCase == ""
 		}
-		obls = append(obls, u.obls...)
-		units = append(units, u)
-		for _, e := range u.errs {
-			s.errs = append(s.errs, u.name()+": "+e)
+		return u, again
+	}
+	var jobs []job
+	for _, in := range s.instsFor(fi, ct) {
+		jobs = append(jobs, job{in, ""})
+	}
+	results := make([][]*Unit, len(jobs))
+	var wg sync.WaitGroup
+	sem := make(chan struct{}, 16)
+	for k := range jobs {
+		k := k
+		wg.Add(1)
+		sem <- struct{}{}
+		go func() {
+			defer wg.Done()
+			defer func() { <-sem }()
+			u, again := runOne(jobs[k])
+			results[k] = append(results[k], u)
+			if again {
+				u2, _ := runOne(job{jobs[k].in, "miss"})
+				results[k] = append(results[k], u2)
+			}
+		}()
+	}
+	wg.Wait()
+	for _, us := range results {
+		for _, u := range us {
+			obls = append(obls, u.obls...)
+			units = append(units, u)
+			for _, e := range u.errs {
+				s.errs = append(s.errs, u.name()+": "+e)
+			}
 		}
 	}
 	return obls, units
@@ -305,16 +327,31 @@ func (u *Unit) finish() {
 // solveAll discharges obligations in parallel.
 func solveAll(obls []*Obligation, tier string) {
 	b := budget(tier)
-	var wg sync.WaitGroup
+	// wave 1: one representative per (function, clause); wave 2: the other
+	// instantiations, which start with the tier that worked for the representative
+	seen := map[string]bool{}
+	var w1, w2 []*Obligation
 	for _, o := range obls {
-		o := o
-		wg.Add(1)
-		go func() {
-			defer wg.Done()
-			solveOne(o, b, tier == "thorough")
-		}()
+		k := o.Fn + "/" + labelOf(o.Name)
+		if seen[k] {
+			w2 = append(w2, o)
+		} else {
+			seen[k] = true
+			w1 = append(w1, o)
+		}
 	}
-	wg.Wait()
+	for _, wave := range [][]*Obligation{w1, w2} {
+		var wg sync.WaitGroup
+		for _, o := range wave {
+			o := o
+			wg.Add(1)
+			go func() {
+				defer wg.Done()
+				solveOne(o, b, tier == "thorough")
+			}()
+		}
+		wg.Wait()
+	}
 }
 
 func solveOne(o *Obligation, budgetS int, cross bool) {
@@ -347,39 +384,65 @@ func solveOne(o *Obligation, budgetS int, cross bool) {
 			qf = append(qf, a)
 		}
 	}
-	total := 0.0
-	try := func(assume []*Term, b int, tier string) bool {
-		txt := Script(o.Ctx, logic, assume, o.Goal, true)
-		r := solve(txt, b, cross && tier == "full")
-		total += r.TimeS
-		if r.Status == "unsat" && r.Cross == "" {
-			rr := *r
-			rr.TimeS = total
-			rr.Backend = r.Backend
-			o.Res, o.Txt, o.Tier = &rr, txt, tier
-			return true
-		}
-		o.Res, o.Txt, o.Tier = r, txt, tier
-		return false
+	type tier struct {
+		name   string
+		assume []*Term
+		budget int
 	}
-	short := 5
+	short := 2
 	if budgetS < short {
 		short = budgetS
 	}
+	var tiers []tier
 	if nq > 0 && !hasQuantifier(o.Goal) {
-		if try(qf, short, "quantifier-free") {
-			return
-		}
+		tiers = append(tiers, tier{"quantifier-free", qf, short})
 	}
 	if len(o.Axioms) > 0 {
-		if try(o.Assume, short*2, "no-axioms") {
+		tiers = append(tiers, tier{"no-axioms", o.Assume, short * 2})
+		tiers = append(tiers, tier{"full", append(append([]*Term{}, o.Axioms...), o.Assume...), budgetS})
+	} else {
+		tiers = append(tiers, tier{"full", o.Assume, budgetS})
+	}
+	// start with the tier that proved the same clause for another instantiation
+	gkey := o.Fn + "/" + labelOf(o.Name)
+	tierMu.Lock()
+	hint := tierHint[gkey]
+	tierMu.Unlock()
+	if hint != "" {
+		for i, t := range tiers {
+			if t.name == hint && i > 0 {
+				t.budget = budgetS
+				tiers = append([]tier{t}, append(append([]tier{}, tiers[:i]...), tiers[i+1:]...)...)
+				break
+			}
+		}
+	}
+	total := 0.0
+	for _, t := range tiers {
+		txt := Script(o.Ctx, logic, t.assume, o.Goal, true)
+		r := solve(txt, t.budget, cross && t.name == "full")
+		total += r.TimeS
+		o.Res, o.Txt, o.Tier = r, txt, t.name
+		if r.Status == "unsat" && r.Cross == "" {
+			tierMu.Lock()
+			tierHint[gkey] = t.name
+			tierMu.Unlock()
 			return
 		}
-		try(append(append([]*Term{}, o.Axioms...), o.Assume...), budgetS, "full")
-		return
 	}
-	try(o.Assume, budgetS, "full")
+	// not proved: report the result of the full query
+	for _, t := range tiers {
+		if t.name == "full" {
+			txt := Script(o.Ctx, logic, t.assume, o.Goal, true)
+			o.Res, o.Txt, o.Tier = solve(txt, t.budget, false), txt, "full"
+		}
+	}
 }
+
+var (
+	tierMu   sync.Mutex
+	tierHint = map[string]string{}
+)
 
 // ok reports whether the obligation is discharged.
 func (o *Obligation) ok() bool {
